@@ -4,8 +4,8 @@ import json, os
 V = os.path.dirname(os.path.dirname(os.path.abspath(__file__)))
 CLAIMED = {
  'C02': dict(
-   text="Lean 4 proofs (all grid sizes, all rational inputs, any delj): Thomas sweep solves the tridiagonal system and the homogeneous system has only the zero solution; the a/b/c rows every kernel assembles are the documented conservative flux-form scheme with the documented flux, drift V=x(1-x)/nu, advection = migration from every other population + selection with dominance, absorbing terms only at the ends of all-zero/all-one lines; one kernel call is the solution of that system; wiring tables of all 15 C kernels and of the 5 Python drivers decided by `decide`. The definitions the theorems talk about are regenerated from integration_shared.c / integration{1..5}D.c / Integration.py on every run (translator) and the executable model is compared with the rebuilt C/Python implementation (15 kernels, 5 precalc kernels, tridiag, coefficient arrays of the constant-parameter drivers) through exact rationals. Round-off itself is not modelled.",
-   note="Trusted: Lean kernel + Mathlib, axioms propext/Classical.choice/Quot.sound only; tools/translate.py; the correspondence harness (differential, tolerance 1e-9, 1e-6 with the delj trick); loops/index arithmetic of the C kernels are tied by correspondence, not translation; exp() in the Chang-Cooper delj is a parameter of the model.",
+   text="Lean 4 proofs (all grid sizes, all rational inputs, any delj): Thomas sweep solves the tridiagonal system and the homogeneous system has only the zero solution; the a/b/c rows every kernel assembles are the documented conservative flux-form scheme with the documented flux, drift V=x(1-x)/nu, advection = migration from every other population + selection with dominance, absorbing terms only at the ends of all-zero/all-one lines; one kernel call is the solution of that system; wiring tables of all 15 C kernels and of the 5 Python drivers decided by `decide`; the pivots of the sweep are >= 1/dt whenever the scheme is an M-matrix (non-negative flux coefficients; unconditional without migration and selection), and under the same condition one step, and whole neutral migration-free integrations in 1-5 populations with constant or time-dependent sizes, map non-negative densities to non-negative densities (sign structure of the Thomas sweep, induction over axes and steps). The definitions the theorems talk about are regenerated from integration_shared.c / integration{1..5}D.c / Integration.py on every run (translator) and the executable model is compared with the rebuilt C/Python implementation (15 kernels, 5 precalc kernels, tridiag, coefficient arrays of the constant-parameter drivers) through exact rationals. Round-off itself is not modelled.",
+   note="Trusted: Lean kernel + Mathlib, axioms propext/Classical.choice/Quot.sound only; tools/translate.py; the correspondence harness (differential, tolerance 1e-9, 1e-6 with the delj trick); loops/index arithmetic of the C kernels are tied by correspondence, not translation; exp() in the Chang-Cooper delj is a parameter of the model. Non-negativity is proved under the stated M-matrix / mesh-Peclet hypotheses only (with strong selection on a coarse grid the real scheme does produce negative values; the property does not exclude that); L3 evaluates it on the real integrators for the neutral case, and passes densities as transposed/Fortran/strided views.",
    technique="Lean 4 theorems over a model regenerated from source + exact-rational differential correspondence", ref="5/C02"),
 }
 CLAIMED.update({
@@ -14,13 +14,13 @@ CLAIMED.update({
    note="Trusted: Lean kernel + Mathlib (propext/Classical.choice/Quot.sound), tools/translate.py, the correspondence harness (1e-9). The theorems are stated on the functional form of the sweep (sweepFn) and transferred to the tabulated arrays the driver runs by proved bridge theorems (C03_tabulated_*: equality on every valid index, any dimension, any number of steps). Float round-off is outside the model ('up to round-off' is checked at 1e-9..1e-10). Split/admix/sampling steps take no scaled parameter (by inspection; composite models are exercised numerically).",
    technique="Lean 4 induction proofs over a model regenerated from source + exact-rational differential correspondence", ref="5/C03"),
  'C04': dict(
-   text="Lean 4 proofs (all grid sizes, dimensions, axes, rational parameters, both delj settings): trapezoid mass balance of every line of every kernel sweep (mass changes only by dt x absorbing term at the two ends); absorbing terms vanish unless all other coordinates are 0 or all are 1, so every non-corner line conserves mass exactly; hence for any set of non-corner lines with any weights (e.g. a frozen population's interior frequency) the weighted marginal is unchanged by a sweep; a line where another population is at an interior frequency is never a corner line; frozen axes are skipped; injection touches only the unit multi-indices of non-frozen (2-D: non-nomut) populations (generated table decided); without migration and selection the first/last interior rows decouple (a1 = c_{N-2} = 0); the frozen/migration guard expressions of two_pops..five_pops (generated) equal 'some frozen population has a non-zero rate in or out'; the kernels' corner-guard wiring table is decided. Correspondence of full sweeps with flags in exact rationals; frozen marginals, isolated marginals (shared time steps), per-kernel line-mass bookkeeping through recorded kernel calls, injection support/amount and the exhaustive frozen x migration rejection table are evaluated on the real code.",
-   note="Trusted as for C02/C03. Isolated marginals: the kernel-sweep theorems (axis in S / outside S, any dimension), the injection identity, the composition over sweeps and steps, and the instantiated case d=2, S={1} are proved; instantiating the invariant for every (d,S), d=3..5 (index plumbing) is not done and those cases rest on the sweep-level theorems plus the numerical check; PivotsOk (non-vanishing pivots) is a hypothesis throughout (the tabulated/functional bridge is proved in C03).",
+   text="Lean 4 proofs (all grid sizes, dimensions, axes, rational parameters, both delj settings): trapezoid mass balance of every line of every kernel sweep (mass changes only by dt x absorbing term at the two ends); absorbing terms vanish unless all other coordinates are 0 or all are 1, so every non-corner line conserves mass exactly; hence for any set of non-corner lines with any weights (e.g. a frozen population's interior frequency) the weighted marginal is unchanged by a sweep; a line where another population is at an interior frequency is never a corner line; frozen axes are skipped; injection touches only the unit multi-indices of non-frozen (2-D: non-nomut) populations (generated table decided); without migration and selection the first/last interior rows decouple (a1 = c_{N-2} = 0); the frozen/migration guard expressions of two_pops..five_pops (generated) equal 'some frozen population has a non-zero rate in or out'; the kernels' corner-guard wiring table is decided; the mutation influx of `_inject_mutations_{1..5}D` is the canonical amount dt/x_k[1]*theta0/2*2^d/((x_k[2]-x_k[0])*prod_{l!=k} x_l[1]) at the unit index of population k and is non-negative; without migration and selection the marginal density of any subset S of populations of a d<=5 population system evolves, at interior frequencies, exactly like S integrated alone with the same time steps (general theorem for any d<=5 and S on a common grid, constant and time-dependent drivers). Correspondence of full sweeps with flags in exact rationals; frozen marginals, isolated marginals (shared time steps), per-kernel line-mass bookkeeping through recorded kernel calls, injection support/amount and the exhaustive frozen x migration rejection table are evaluated on the real code.",
+   note="Trusted as for C02/C03. Isolated marginals: proved for any d <= 5 and any subset S on a common grid (Integration.py always uses one grid for all axes); populations outside S may have selection, dominance and migration from S and keep their pivot condition as a hypothesis (discharged for neutral migration-free populations and under the Peclet-type condition of C02_pivots_peclet). The tabulated/functional bridge is proved in C03. L3 exercises every population's size function of every driver (time-dependent sizes per population), all 16 frozen/nomut combinations in 2-D and all frozen vectors in 3-5-D from a zero start (mutation support), on symmetric and asymmetric grids.",
    technique="Lean 4 proofs (telescoping flux sums, generated guard tables) + exact-rational correspondence + recorded-kernel mass bookkeeping", ref="5/C04"),
 })
 CLAIMED.update({
  'C01': dict(
-   text="PARTIAL. Proved in Lean 4 for every grid from 0 to 1, every dt and every number of steps: the discrete heterozygosity law of the neutral one-population step H(phi')(1/dt + kappa) = H(phi)/dt with kappa = (beta+1)^2/(4 beta nu) (two summations by parts over the generated coefficient formulas), the influx law (injection adds exactly dt*theta0*(1-x1)/2), the closed form of the inject-and-step recursion over n steps and its fixed point (continuum value times exactly (1-x1)), the neutral equilibrium density, and that the equilibrium constructors depend on (nu,gamma,theta0) only through gamma*nu and nu*theta0 (generated from PhiManip.py) - the units/scaling facts the property is about. NOT proved (numerical, against independent theory oracles written from the coalescent and from the closed-form equilibrium density): convergence to the exact coalescent expectation within 1.5% at a tenth of the default step on refined grids, error proportional to dt, convergence to the drift-selection equilibrium under grid refinement and from a neutral start, finiteness/non-negativity/continuity of the equilibrium density over the whole gamma box, stationarity up to a vanishing grid error.",
+   text="PARTIAL. Proved in Lean 4 for every grid from 0 to 1, every dt and every number of steps: the discrete heterozygosity law of the neutral one-population step H(phi')(1/dt + kappa) = H(phi)/dt with kappa = (beta+1)^2/(4 beta nu) (two summations by parts over the generated coefficient formulas), the influx law (injection adds exactly dt*theta0*(1-x1)/2), the mean-frequency (martingale) law of the neutral step (the first moment sum_j w_j x_j phi_j changes only through the absorbing term at x=1, whose coefficient is the documented (1/nu)/dx_last), the closed form of the inject-and-step recursion over n steps and its fixed point (continuum value times exactly (1-x1)), the neutral equilibrium density, and that the equilibrium constructors depend on (nu,gamma,theta0) only through gamma*nu and nu*theta0 (generated from PhiManip.py) - the units/scaling facts the property is about. NOT proved (numerical, against independent theory oracles written from the coalescent and from the closed-form equilibrium density): convergence to the exact coalescent expectation within 1.5% at a tenth of the default step on refined grids, error proportional to dt, convergence to the drift-selection equilibrium under grid refinement and from a neutral start, finiteness/non-negativity/continuity of the equilibrium density over the whole gamma box, stationarity up to a vanishing grid error.",
    note="Trusted: Lean kernel + Mathlib; translator; correspondence of the 1-D kernel with the exact model; scipy quad/expm in the oracles. Convergence of a finite-difference scheme to the diffusion and to coalescent theory is research-level analysis and is outside what is proved here; thresholds: the property's own 1.5%, time-step ratio in [4,25] (observed ~10), refinement ratios calibrated on the unchanged tree (observed 3.1-6.0, accepted 2-6.5).",
    technique="Lean 4 proofs of the scheme's exact moment laws + numerical comparison with independent coalescent/equilibrium oracles", ref="5/C01"),
 })
